@@ -67,13 +67,20 @@ def shadow_source(src) -> Shadow:
     return Shadow(arr, src["dims"], src["coords"])
 
 
-def shadow_apply(s: Shadow, op: dict) -> Shadow:
+def shadow_apply(s: Shadow, op: dict, taint_zero_std: bool = False) -> Shadow:
+    """taint_zero_std: a std over 1 < batch < n writes NaN ("don't care") wherever the true standard deviation is zero relative
+    to the magnitude of the data; NaN then propagates through later operators (used only to attribute a disagreement to the
+    recorded finding batched-std-cancellation-at-zero-variance, never to decide that values agree)."""
     k = op["op"]
     if k == "map_affine":
         return Shadow(op["a"] * s.arr + op["b"], s.dims, s.coords)
     if k == "reduce":
         ax = s.dims.index(op["dim"])
         arr = REDUCTIONS[op["name"]](s.arr, axis=ax, keepdims=op["keep"])
+        if taint_zero_std and op["name"] == "std" and 1 < op["batch"] < s.arr.shape[ax]:
+            arr = np.array(arr, dtype="float64")
+            scale = np.maximum(1.0, np.abs(np.mean(np.asarray(s.arr, dtype="float64"), axis=ax, keepdims=op["keep"])))
+            arr[arr <= 1e-6 * scale] = np.nan
         if op["keep"]:
             return Shadow(arr, s.dims, {**s.coords, op["dim"]: [ANY]})
         return Shadow(arr, [d for d in s.dims if d != op["dim"]], {d: v for d, v in s.coords.items() if d != op["dim"]})
@@ -379,8 +386,9 @@ def action_values(action) -> np.ndarray:
     return out
 
 
-def compare(action, s: Shadow, rtol=1e-9, require_dim_order=True):
-    """None if the action denotes the shadow; else (kind, message)."""
+def compare(action, s: Shadow, rtol=1e-9, require_dim_order=True, ignore_nan_expected=False):
+    """None if the action denotes the shadow; else (kind, message). ignore_nan_expected: entries whose expected value is NaN are
+    "don't care" (see shadow_apply's taint_zero_std)."""
     dims = [str(d) for d in action.nodes.dims]
     if sorted(dims) != sorted(s.dims):
         return "dims", f"dims {dims} != expected {s.dims}"
@@ -408,6 +416,11 @@ def compare(action, s: Shadow, rtol=1e-9, require_dim_order=True):
         e = arr[idx]
         if g.shape != e.shape:
             return "inner-shape", f"at {idx}: inner shape {g.shape} != expected {e.shape}"
+        if ignore_nan_expected:
+            e = np.array(e, dtype="float64")
+            care = ~np.isnan(e)
+            g = np.where(care, g, 0.0)
+            e = np.where(care, e, 0.0)
         if not np.allclose(g, e, rtol=rtol, atol=rtol, equal_nan=False):
             kind = "nan" if np.isnan(g).any() and not np.isnan(e).any() else "values"
             bad = ~np.isclose(g, e, rtol=rtol, atol=rtol)
